@@ -306,6 +306,8 @@ pub enum ClientOp {
     JoinLazyDetach { h: u16 },
     /// await the oldest join future this client kept with `JoinLazyDetach`
     AwaitLazy,
+    /// create a join future, poll it once, drop it (a `select!` arm that lost): the actor is unaffected
+    JoinPollDrop { h: u16 },
     /// `held_addr.clone().register()`: register an instance the client already holds (possibly the registered one)
     RegisterHeld { h: u16 },
     /// create a join future, poll it once and keep it alive (a stalled `select!` arm) until the client ends
